@@ -335,7 +335,8 @@ def get_switched_peak_array_indices(values, tol=0.0):
         sgn = np.sign(last)
         adj_val = peak_values[i] + tol * sgn  # if val is -ve then this will make value more +ve
         if adj_val * last <= 0:  # only add index if sign changes (negative number)
-            i_max_set = np.argmax(np.abs(peak_values_set))
+            # largest peak in the direction of this half cycle (with tol > 0 the set can hold opposite-sign dips)
+            i_max_set = np.argmax(sgn * np.array(peak_values_set))
             new_peak_indices.append(peak_indices_set[i_max_set])
 
             last = peak_values[i]
@@ -346,7 +347,7 @@ def get_switched_peak_array_indices(values, tol=0.0):
         peak_indices_set.append(i)
 
     if len(peak_values_set):  # add last
-        i_max_set = np.argmax(np.abs(peak_values_set))
+        i_max_set = np.argmax(np.sign(last) * np.array(peak_values_set))
         new_peak_indices.append(peak_indices_set[i_max_set])
         peak_values_set.append(peak_values[i])
         peak_indices_set.append(i)
